@@ -1,5 +1,6 @@
 """Python side of the operator-algebra engine: grid-shape lattice, probe driver, record reader, reference stencil."""
 import math
+import json
 import os
 import shutil
 import struct
@@ -108,7 +109,7 @@ class CaseSpec(dict):
 
 
 def lattice(nrs, nts, what, tier, min_circles=2, min_radial=3, need_odd_nr=False, need_nt4=False, geoms=None,
-            with_culham=True, cycle_offsets=(0,), threads_cycle=(1,), extra=None, full_product=False, auto_min_nr=0):
+            with_culham=True, cycle_offsets=(0,), threads_cycle=(1,), extra=None, full_product=False, auto_min_nr=0, id_prefix="c"):
     """Structural dimensions (nr, ntheta, split class, boundary) in full product; spacing / geometry / profile / R0 /
     Rmax cycled with co-prime strides so that every value meets every structural class (pairwise), or the full
     product when full_product is set."""
@@ -149,7 +150,7 @@ def lattice(nrs, nts, what, tier, min_circles=2, min_radial=3, need_odd_nr=False
                             radii = make_radii(nr, R0, Rmax, rp)
                             angles = make_angles(nt, tp)
                             split = None if sp is None else split_for_circles(radii, sp)
-                            cid = "c%05d" % len(cases)
+                            cid = "%s%05d" % (id_prefix, len(cases))
                             thr = threads_cycle[k % len(threads_cycle)]
                             spec = CaseSpec(id=cid, nr=nr, nt=nt, circles=("auto" if sp is None else sp), dirbc=dirbc,
                                             rpat=rp, tpat=tp, geom=geom, kappa=kappa, delta=delta, alpha=alpha,
@@ -159,6 +160,17 @@ def lattice(nrs, nts, what, tier, min_circles=2, min_radial=3, need_odd_nr=False
                             cases.append(spec)
                         k += 1
     return cases
+
+
+FULL_BLOCK_RULE = ("thorough tier only: on the structural lattice nr {5,7,8} (C07: {7,9}) x ntheta {4,8,12} x every split class x "
+                   "interior boundary, the full product of 5 radial spacing patterns x 3 angular patterns x 6 geometries instead of the "
+                   "pairwise cycling of the main lattice (case ids f*)")
+
+
+def full_block(nrs, nts, what, tier, **kw):
+    """thorough tiers: on a small structural lattice, the full product spacing pattern x angle pattern x geometry
+    (5 x 3 x 6) for every structural class (nr, ntheta, split class, boundary) instead of the pairwise cycling"""
+    return lattice(nrs, nts, what, tier, full_product=True, id_prefix="f", **kw)
 
 
 def spec_summary(s):
@@ -288,6 +300,11 @@ def run_cases(binary, cases, oracle_mod, oracle_fn, chunk_size=None, timeout=900
         n = len(cases)
         cs = chunk_size or max(1, min(24, (n + common.NCPU * 3 - 1) // (common.NCPU * 3)))
         chunks = [cases[i:i + cs] for i in range(0, n, cs)]
+        # the cases of one chunk go through ONE probe process in order: process-global state (function-local statics,
+        # lazily built tables) left by an earlier case is part of what is explored, and a replay must be able to rebuild it
+        for ch in chunks:
+            for j, sp in enumerate(ch):
+                sp["prefix"] = [c["line"] for c in ch[:j]]
         args = [(binary, ch, oracle_mod, oracle_fn, tmpdir, i, timeout) for i, ch in enumerate(chunks)]
         results = []
         with ProcessPoolExecutor(max_workers=common.NCPU) as ex:
@@ -304,6 +321,160 @@ def run_cases(binary, cases, oracle_mod, oracle_fn, chunk_size=None, timeout=900
         return results
     finally:
         shutil.rmtree(tmpdir, ignore_errors=True)
+
+
+# ---------------------------------------------------------------------------------------------
+# process-history block: every ordered pair (a, b) of representative cases in ONE probe process; the records of b must be
+# bit-identical to those of b in a fresh process.  Decides "the operator of a grid does not depend on which grids the
+# process has handled before" (function-local statics, lazily initialised tables, thread-count globals) for every oracle
+# at once, because the comparison is on the raw records.
+# ---------------------------------------------------------------------------------------------
+def run_raw(binary, lines, timeout=900):
+    tmpdir = tempfile.mkdtemp(prefix="opraw", dir=os.path.join(common.BUILD))
+    try:
+        outp = os.path.join(tmpdir, "out.bin")
+        rc, so, se = common.run_probe(binary, [outp], stdin_text="\n".join(lines) + "\n", timeout=timeout)
+        recs = group_by_case(read_records(outp)) if os.path.exists(outp) else {}
+        return rc, recs, se
+    finally:
+        shutil.rmtree(tmpdir, ignore_errors=True)
+
+
+def history_representatives(cases, n):
+    """representative cases: the first case of each (ntheta, boundary) class, radial sizes alternating, n at most"""
+    reps, seen = [], set()
+    nts = sorted({c["nt"] for c in cases})
+    nrs = sorted({c["nr"] for c in cases})
+    k = 0
+    for nt in nts:
+        for dirbc in (0, 1):
+            want_nr = nrs[k % len(nrs)]
+            k += 1
+            cand = [c for c in cases if c["nt"] == nt and c["dirbc"] == dirbc and c["nr"] == want_nr] or \
+                   [c for c in cases if c["nt"] == nt and c["dirbc"] == dirbc]
+            if cand and (nt, dirbc) not in seen:
+                seen.add((nt, dirbc))
+                reps.append(cand[len(cand) // 2])
+    return reps[:n]
+
+
+def _relabel(line, new_id):
+    old = line.split()[0]
+    return line.replace(old, "id=" + new_id, 1)
+
+
+def _records_differ(ra, rb):
+    diff = []
+    for k in sorted(set(ra) | set(rb)):
+        if k not in ra or k not in rb:
+            diff.append(k + " (missing)")
+        else:
+            a, b = np.asarray(ra[k]), np.asarray(rb[k])
+            if a.shape != b.shape or a.tobytes() != b.tobytes():
+                diff.append(k)
+    return diff
+
+
+def _history_pair(args):
+    binary, la, lb = args
+    lines = ([_relabel(la, "ha")] if la is not None else []) + [_relabel(lb, "hb")]
+    rc, recs, se = run_raw(binary, lines)
+    return rc, recs.get("hb"), _tail(se)
+
+
+def history_block(binary, cases, rep, n=8):
+    """returns coverage dict; reports violations through rep"""
+    reps = history_representatives(cases, n)
+    jobs = [(binary, None, b["line"]) for b in reps] + [(binary, a["line"], b["line"]) for a in reps for b in reps if a is not b]
+    with ProcessPoolExecutor(max_workers=common.NCPU) as ex:
+        outs = list(ex.map(_history_pair, jobs))
+    fresh = {b["id"]: outs[i] for i, b in enumerate(reps)}
+    pairs = [(a, b) for a in reps for b in reps if a is not b]
+    bad = 0
+    for (a, b), (rc, rec, tail) in zip(pairs, outs[len(reps):]):
+        frc, frec, ftail = fresh[b["id"]]
+        if frec is None or "done" not in frec:
+            continue   # the case itself fails in a fresh process: reported by the main lattice
+        rp = {"kind": "history", "case": b["line"], "process_prefix": [a["line"]], "summary": spec_summary(b)}
+        if rec is None or "done" not in rec:
+            bad += 1
+            rep.violation("process-history:crash", "case %s dies or throws when the same process handled %s before it (exit %s: %s); "
+                          "alone it runs" % (json.dumps(spec_summary(b)), json.dumps(spec_summary(a)), rc, tail), rp)
+            continue
+        diff = _records_differ(frec, rec)
+        if diff:
+            bad += 1
+            names = sorted({d.split("_T")[0].rstrip("0123456789") for d in diff})
+            rep.violation("process-history:%s" % names[0], "the records %s of case %s differ bit-wise from a fresh process when the same "
+                          "process handled case %s before it" % (diff[:6], json.dumps(spec_summary(b)), json.dumps(spec_summary(a))), rp)
+    return {"process_history_representatives": len(reps), "process_history_ordered_pairs": len(pairs),
+            "process_history_pairs_differing": bad,
+            "process_history_rule": "every ordered pair (a, b) of the representative cases (one per ntheta x boundary class) runs in one "
+                                    "probe process; all records of b compared bit for bit with b alone in a fresh process"}
+
+
+def replay_record(s, **more):
+    """what a violation of case s needs to be replayed: its own line, and the lines the same probe process ran before it"""
+    rp = {"case": s["line"], "summary": spec_summary(s), "process_prefix": list(s.get("prefix", []))}
+    rp.update(more)
+    return rp
+
+
+def _spec_of_line(line, summary=None):
+    spec = CaseSpec(summary or {})
+    spec["id"] = line.split()[0].split("=")[1]
+    spec["line"] = line
+    for k in ("nr", "nt", "circles", "dirbc", "geom", "alpha", "beta", "rpat", "tpat"):
+        spec.setdefault(k, "?")
+    return spec
+
+
+def replay_cases(binary, rp, oracle_mod, pid, path):
+    """Replays one recorded case twice in a fresh process; if the violation does not show there, once more behind the
+    cases that the same process had run before it (process-global state)."""
+    if rp.get("kind") == "history":
+        outs = []
+        for _ in range(2):
+            f = _history_pair((binary, None, rp["case"]))
+            h = _history_pair((binary, rp["process_prefix"][0], rp["case"]))
+            if f[1] is None:
+                print("replay: the case does not run alone; see the main lattice")
+                return 2
+            outs.append(["crash"] if h[1] is None or "done" not in h[1] else _records_differ(f[1], h[1]))
+        if outs[0] != outs[1]:
+            print("replay is not deterministic; refusing to report")
+            return 2
+        if outs[0]:
+            print("records differing from the fresh process: %s" % outs[0][:10])
+            print("VIOLATION property=%s replay=%s" % (pid, path))
+            return 1
+        print("replay: property held")
+        return 0
+    spec = _spec_of_line(rp["case"], rp.get("summary"))
+
+    def once(prefix):
+        specs = [_spec_of_line(l) for l in prefix] + [spec]
+        for i, sp in enumerate(specs[:-1]):
+            sp["id"] = sp["id"]
+        res = run_cases(binary, specs, oracle_mod, "oracle", chunk_size=len(specs))
+        return sorted((k, w) for sp, v, _ in res if sp["id"] == spec["id"] and sp["line"] == spec["line"] for (k, w, _) in v)
+
+    for prefix, label in (([], "fresh process"), (rp.get("process_prefix") or [], "behind the %d earlier cases of its process" %
+                                                   len(rp.get("process_prefix") or []))):
+        if prefix == [] and label != "fresh process":
+            break
+        outs = [once(prefix), once(prefix)]
+        if [k for k, _ in outs[0]] != [k for k, _ in outs[1]]:
+            print("replay is not deterministic; refusing to report")
+            return 2
+        if outs[0]:
+            print("replayed in a %s:" % label)
+            for k, w in outs[0]:
+                print("  [%s] %s" % (k, w))
+            print("VIOLATION property=%s replay=%s" % (pid, path))
+            return 1
+    print("replay: property held")
+    return 0
 
 
 # ---------------------------------------------------------------------------------------------
